@@ -80,7 +80,7 @@ func init() {
 		Gen:  gen,
 		Exec: exec,
 		// the enumerated spaces are complete within their stated bounds; the random long schedules are samples
-		Exhaustive: func(line string) bool { return !strings.HasPrefix(line, "loop 0102;0103;") },
+		Exhaustive: func(line string) bool { return !randomLines[line] },
 	})
 }
 
@@ -180,6 +180,9 @@ type inst struct {
 }
 
 var quiet = doubles.NewLogger()
+
+// randomLines: the sampled (not enumerated) schedules of this process' generator run
+var randomLines = map[string]bool{}
 
 // run drives the real queryLoop through the schedule.
 // stuckCases counts cases in which the loop stopped consuming inputs.
@@ -1042,7 +1045,11 @@ func enumerate(k, nr int, controls []string, maxLen int, emit func([]string)) {
 
 func gen(tier string, rng *h.Rng, emit func(string)) {
 	thorough := tier == "thorough"
-	ridSets := []string{"01;02;03", "aa;aabb;00"}
+	// request ids are BYTE STRINGS: the third and fourth set hold distinct ids that are "the same number" under
+	// a fixed-width re-encoding (leading zero bytes; 31 / 32 / 33 bytes with equal last 32 bytes) - a key that
+	// is a decoded-and-re-encoded form of the id would put them in one slot (seed C13g-1)
+	x31 := strings.Repeat("5a", 30) + "07"
+	ridSets := []string{"01;02;03", "aa;aabb;00", "07;0007;000007", x31 + ";00" + x31 + ";ff00" + x31}
 	// 1. exhaustive interleavings. Instances 0,1,2 belong to request ids 0,1,2; instance 3 is a
 	//    second pipeline for request id 0 (duplicate chain event).
 	type space struct {
@@ -1130,6 +1137,12 @@ func gen(tier string, rng *h.Rng, emit func(string)) {
 	} {
 		emit("loop -;07;08 " + evString(evs))
 	}
+	// the empty id next to other spellings of zero
+	for _, evs := range [][]string{
+		{"r1.1", "a0", "a1", "a2", "r0.0", "a0", "a1"}, {"a0", "a1", "r2.2", "a2", "r0.0", "r1.1"}, {"r0.0", "a1", "a2", "r1.1", "a0", "c0", "a1"},
+	} {
+		emit("loop -;00;0000 " + evString(evs))
+	}
 	// 3. random longer schedules (several instances per request id, many arrivals)
 	nrand := 300
 	if thorough {
@@ -1163,6 +1176,15 @@ func gen(tier string, rng *h.Rng, emit func(string)) {
 			}
 		}
 		rs := []string{"0102", "0103", h.Hex(rng.Bytes(1 + rng.Intn(33)))}
-		emit("loop " + strings.Join(rs[:3], ";") + " " + evString(evs))
+		switch i % 4 {
+		case 1: // leading zero bytes
+			rs = []string{"0102", "000102", "00000102"}
+		case 2: // 64 bytes against its last 32
+			t := h.Hex(rng.Bytes(32))
+			rs = []string{t, h.Hex(rng.Bytes(32)) + t, "00" + t}
+		}
+		l := "loop " + strings.Join(rs[:3], ";") + " " + evString(evs)
+		randomLines[l] = true
+		emit(l)
 	}
 }
